@@ -127,6 +127,9 @@ OBLIGATIONS = [
     native("n_c13_setback", ["C13", "C12"], "C13.setback", "Window::shades_for_setback", EN + "n_c13_setback"),
     native("n_c13_aabb_slab", ["C13"], "C13.aabb.slab", "AABB::intersects", EN + "n_c13_aabb_slab"),
     native("n_c12_sunlit", ["C12", "C14"], "C12.sunlit", "Model::sunlit_fraction / collect_occluders / ray_origins_for_window", EN + "n_c12_sunlit"),
+    native("n_c12_ray_origins", ["C12"], "C12.ray_origins", "Model::ray_origins_for_window", EN + "n_c12_ray_origins"),
+    native("n_c12_occluder_set", ["C12"], "C12.occluder_set", "Model::collect_occluders / windows_setback_shades", EN + "n_c12_occluder_set"),
+    native("n_c12_unobstructed_orientations", ["C12"], "C12.fshobst.orientations", "Model::compute_fshobst / ray_dir_to_sun / WallGeom::normal", EN + "n_c12_unobstructed_orientations"),
     native("n_c12_reveals", ["C12"], "C12.reveals", "Model::sunlit_fraction (own / foreign reveal filter) / windows_setback_shades", EN + "n_c12_reveals"),
     native("n_c12_fshobst", ["C12"], "C12.fshobst", "Model::compute_fshobst", EN + "n_c12_fshobst"),
     native("n_c17_week_expand", ["C17"], "C17.week.expand", "ScheduleWeek::to_day_sch", RN + "n_c17_week_expand"),
@@ -153,6 +156,7 @@ OBLIGATIONS = [
     native("n_c20_tables", ["C20"], "C20.tables", "climatedata::{JULYRADDATA, MONTHLYRADDATA, CLIMATEMETADATA, ClimateZone}", EN + "n_c20_tables"),
     native("n_c09_n50", ["C09"], "C09.n50", "N50Data::from(&EnergyProps)", EN + "n_c09_n50"),
     native("n_c10_qsoljul", ["C10"], "C10.qsoljul", "QSolJulData::from(&EnergyProps, &HashMap<Orientation,f32>)", EN + "n_c10_qsoljul"),
+    native("n_c10_zone_and_class", ["C10"], "C10.zone", "EnergyIndicators::compute (zone table) / Orientation::from(&Wall)", EN + "n_c10_zone_and_class"),
     native("n_c10_july_table", ["C10", "C20"], "C10.table", "climatedata::total_radiation_in_july_by_orientation", EN + "n_c10_july_table"),
 ]
 
